@@ -136,7 +136,7 @@ impl Instance {
             }
             Corr::RootPre(l) => roots[*l] += delta,
             Corr::LastPre(k) => last[*k] += delta,
-            Corr::LastLenPre(n) => last.resize(*n, Felt::ONE),
+            Corr::LastLenPre(n) => last.resize(*n, Felt::ZERO),
             _ => {}
         }
         let unsent = UnsentCommitment { inner_layers: roots, last_layer_coefficients: last };
@@ -153,7 +153,7 @@ impl Instance {
             Corr::RootPost(l) => com.inner_layers[*l].vector_commitment.commitment_hash += delta,
             Corr::EvalPoint(l) => com.eval_points[*l] += delta,
             Corr::LastPost(k) => com.last_layer_coefficients[*k] += delta,
-            Corr::LastLenPost(n) => com.last_layer_coefficients.resize(*n, Felt::ONE),
+            Corr::LastLenPost(n) => com.last_layer_coefficients.resize(*n, Felt::ZERO),
             _ => {}
         }
         let qf: Vec<Felt> = self.queries.iter().map(|q| Felt::from(*q)).collect();
@@ -262,6 +262,20 @@ fn gen_poly(rng: &mut Rng, p: &FriParams, kind: u64) -> Vec<Felt> {
 
 // ------------------------------------------------------------------------------------------------
 // folding formula identities (C06 b)
+pub fn formula_identities_pub(rep: &mut Report, rng: &mut Rng, n_cases: u64) {
+    formula_identities(rep, rng, n_cases)
+}
+
+/// a tiny honest instance (2 layers, 2^4 domain) for the interpreter legs
+pub fn make_small_instance(rng: &mut Rng) -> Instance {
+    let params = FriParams { steps: vec![0, 2], lb: 1, c: 1, n_friendly: 2, hash: crate::build_hash(), extra_height: 0 };
+    let coef: Vec<Felt> = (0..1usize << params.degree_bound_log()).map(|_| rng.felt()).collect();
+    let seed = rng.felt();
+    let mut sponge = SpongeModel::new(seed);
+    let proof = FriProof::commit(params.clone(), &coef, &mut sponge);
+    Instance { params, seed, proof, queries: vec![3, 9] }
+}
+
 fn formula_identities(rep: &mut Report, rng: &mut Rng, n_cases: u64) {
     for _ in 0..n_cases {
         let k = rng.range(1, 4) as u32;
@@ -472,6 +486,58 @@ pub fn run(args: &Args, sound: bool) -> Report {
     total.merge(rep);
 
     if sound {
+        // ---- C07: the last layer must have EXACTLY 2^bound coefficients. The changes below keep the
+        // polynomial's values (zero padding, or dropping coefficients that are zero), so only the
+        // length check itself can reject them.
+        let n_len: u64 = if thorough { 300 } else { 40 };
+        let rep = par_run(n_threads(), n_len, |i, rep| {
+            let mut rng = base.fork(&format!("len{i}"));
+            let mut params = gen_params(&mut rng, thorough);
+            while params.lb == 0 || params.m() > 12 {
+                params = gen_params(&mut rng, thorough);
+            }
+            // degree < bound / 2^k: the upper part of the last layer is zero
+            let bound = 1usize << params.degree_bound_log();
+            let keep = (bound >> (1 + rng.below(params.lb as u64))).max(1);
+            let mut coef: Vec<Felt> = (0..keep).map(|_| rng.felt()).collect();
+            coef.resize(bound, Felt::ZERO);
+            let seed = rng.felt();
+            let mut sponge = SpongeModel::new(seed);
+            let proof = FriProof::commit(params.clone(), &coef, &mut sponge);
+            let queries = gen_queries(&mut rng, &params);
+            let inst = Instance { params, seed, proof, queries };
+            let nl = 1usize << inst.params.lb;
+            let last = inst.proof.last_layer();
+            let nonzero = last.iter().rposition(|c| *c != Felt::ZERO).map(|x| x + 1).unwrap_or(0);
+            if !matches!(inst.run_real(&Corr::None, &mut rng), Outcome::Accepted) {
+                rep.violation("C06|honest-rejected", "honest low-degree FRI instance rejected", inst.describe(&Corr::None));
+                return;
+            }
+            let mut lens: Vec<usize> = vec![nl + 1, nl + 2, nl + nl / 2, 2 * nl - 1, 2 * nl, 4 * nl];
+            for l in [nl - 1, nl / 2, (nl / 2).max(1) + 1, nonzero.max(1)] {
+                if l >= nonzero && l < nl && l >= 1 {
+                    lens.push(l);
+                }
+            }
+            lens.sort();
+            lens.dedup();
+            for l in lens {
+                for c in [Corr::LastLenPre(l), Corr::LastLenPost(l)] {
+                    rep.case(&format!("len|{}|{:?}|{c:?}", hex(&inst.seed), inst.params.steps), true);
+                    rep.inc(&format!("corrupt.{} (value-preserving)", c.class()));
+                    match inst.run_real(&c, &mut rng) {
+                        Outcome::Accepted => rep.violation(
+                            &format!("C07|corruption-accepted|{} (value-preserving)", c.class()),
+                            &format!("a last layer of {l} coefficients was accepted although the bound is 2^{} = {nl} (same polynomial: zero padding / zero coefficients dropped)", inst.params.lb),
+                            inst.describe(&c),
+                        ),
+                        _ => rep.inc("corrupt_rejected"),
+                    }
+                }
+            }
+        });
+        total.merge(rep);
+
         // ---- C07: functions of degree >= bound, honestly folded, last layer truncated
         let n_hi: u64 = if thorough { 400 } else { 40 };
         let rep = par_run(n_threads(), n_hi, |i, rep| {
